@@ -12,6 +12,7 @@ import (
 	"sort"
 	"strings"
 	"sync"
+	"sync/atomic"
 	"time"
 
 	wire "github.com/jeroenrinzema/psql-wire"
@@ -76,6 +77,7 @@ func setCurInline(rt *Runtime) { curInline = rt }
 func init() {
 	wire.VerifYield = hookYield
 	wire.VerifLock = hookLock
+	wire.VerifGoTop = hookGoTop
 }
 
 // timeoutError is what a middleware that waited for something returns.
@@ -207,29 +209,29 @@ func (c *Case) Inspect() bool { return c.Prop == "C12" || c.Prop == "C19" || c.V
 
 // Runtime is the state of one simulated run.
 type Runtime struct {
-	valHits    [8]int
-	C          *Case
-	K          *Kernel
-	Conns      []*connState
-	L          *SimListener
-	Srv        *wire.Server
-	acceptTask int
-	frozen     bool
-	never      chan struct{}
-	serveDone  bool
-	serveErr   error
-	L2         *SimListener // second listener of the same Server (SchedCase.Listeners > 1)
-	serve2Done bool
-	serve2Err  error
-	userParams wire.Parameters
-	paramsCopy map[string]string
+	valHits     [8]int
+	C           *Case
+	K           *Kernel
+	Conns       []*connState
+	L           *SimListener
+	Srv         *wire.Server
+	acceptTask  int
+	frozen      bool
+	never       chan struct{}
+	serveDone   bool
+	serveErr    error
+	L2          *SimListener // second listener of the same Server (SchedCase.Listeners > 1)
+	serve2Done  bool
+	serve2Err   error
+	userParams  wire.Parameters
+	paramsCopy  map[string]string
 	userParams2 wire.Parameters
 	paramsCopy2 map[string]string
-	closerEv   [][]Event
-	closerMu   []*sync.Mutex // one per Close caller: orders its event log before the reader, and nothing else
-	closerTask []int
-	Panics     []string
-	lockDead   string
+	closerEv    [][]Event
+	closerMu    []*sync.Mutex // one per Close caller: orders its event log before the reader, and nothing else
+	closerTask  []int
+	Panics      []string
+	lockDead    string
 }
 
 type mwKey int
@@ -297,6 +299,27 @@ func (rt *Runtime) valHit(i int) int {
 	return n
 }
 
+// expectedPanic is the value a scripted user callback panics with. While one is
+// in flight, the outermost deferred call of the library's goroutines (spliced in
+// by cmd/instrument) recovers it: the panic has crossed every frame of the
+// library - where a real process would have died - and the run records that.
+type expectedPanic struct{ c *connState }
+
+var panicInFlight atomic.Bool
+
+func hookGoTop(r any) bool {
+	if r == nil {
+		return panicInFlight.Load()
+	}
+	ep, ok := r.(expectedPanic)
+	if !ok {
+		return false
+	}
+	panicInFlight.Store(false)
+	ep.c.rec("goroutine-died", "a panic of a user callback reached the top of the connection's goroutine")
+	return true
+}
+
 func (rt *Runtime) validator(ctx context.Context, database, username, password string) (context.Context, bool, error) {
 	c := rt.connOf(ctx)
 	rt.K.Yield(c.task, "cb.validator")
@@ -321,6 +344,10 @@ func (rt *Runtime) validator(ctx context.Context, database, username, password s
 	switch out {
 	case "accept":
 		return ctx, true, nil
+	case "panic":
+		// a faulty validator: it panics for these credentials
+		panicInFlight.Store(true)
+		panic(expectedPanic{c})
 	case "fail":
 		return ctx, false, errors.New("validator backend unavailable")
 	case "failtrue":
